@@ -62,7 +62,8 @@ def make_replayer(extra_modules=()):
         hits = []
         for k in kinds:
             for f in bat.result.get(k, []):
-                if fn.split('.')[-1] in f:
+                if fn.split('.')[-1] in f or (
+                        '.' in fn and f.startswith(fn.split('.')[0] + ':')):
                     hits.append(f)
         info = {'battery': 'engine/replay/py_battery.py on an overlay build '
                 'of the current tree', 'oracle': kinds,
